@@ -326,7 +326,11 @@ class _CommonFile:
 
     def _encode_user(self, user):
         """user-specific wrapper for _encode_field()"""
-        return self._encode_field(user, "user")
+        user = self._encode_field(user, "user")
+        if user.lstrip().startswith(_BHASH):
+            # the record line would be read back as a comment
+            raise ValueError(f"user must not start with '#': {user!r}")
+        return user
 
     def _encode_realm(self, realm):  # pragma: no cover - abstract method
         """realm-specific wrapper for _encode_field()"""
